@@ -75,3 +75,20 @@ impl<T> Trie<T> {
         self.inner.is_empty()
     }
 }
+
+#[cfg(feature = "verif")]
+impl<T: Clone> Trie<T> {
+    /// Verification hook: every stored (key, value) pair, keys decoded back to `u16` elements.
+    pub fn verif_entries(&self) -> Vec<(Vec<u16>, T)> {
+        self.inner
+            .iter()
+            .map(|(k, v)| {
+                let key = k
+                    .chunks(2)
+                    .map(|c| u16::from_ne_bytes([c[0], c[1]]))
+                    .collect::<Vec<u16>>();
+                (key, v.clone())
+            })
+            .collect()
+    }
+}
